@@ -197,6 +197,11 @@ pub fn run(ctx: &mut Ctx) {
             if refreshed {
                 e.use_resources(store.iter().map(|d| d.to_resource()));
             }
+            if !late && r.chance(1, 5) {
+                // loading rules (here: the engine's own buffer) does not touch the resources
+                let buf = e.serialize_raw().expect("serialize");
+                e.deserialize(&buf).expect("own buffer");
+            }
             if late {
                 for k in 0..3 {
                     let url = match k {
